@@ -285,6 +285,21 @@ func run(tapeJSON json.RawMessage, res *core.Result) {
 	for _, d := range tp.Defects {
 		fault += "+" + d.Kind
 	}
+	if tp.Net != "" {
+		res.Faults["net-"+tp.Net]++
+	}
+	for _, p := range tp.Perturb {
+		res.Faults["reply-"+p.Kind]++
+	}
+	for _, d := range tp.Defects {
+		res.Faults["apreq-"+d.Kind]++
+	}
+	if tp.Scenario == "file" {
+		res.Faults["file-"+tp.Mode] += tp.Count
+	}
+	if tp.PAC != "" && tp.PAC != "valid" {
+		res.Faults["pac-"+tp.PAC]++
+	}
 	if tp.PAC != "" {
 		fault += "+pac-" + tp.PAC
 	}
